@@ -36,8 +36,11 @@ def main(argv=None) -> int:
         ctx = report.Ctx(prop, pm, a.tier, seed)
         mod = importlib.import_module(f"sa.rules.{prop.lower()}")
         mod.check(ctx)
-        if a.tier == "thorough" and hasattr(mod, "thorough"):
-            mod.thorough(ctx)
+        if a.tier == "thorough":
+            if hasattr(mod, "thorough"):
+                mod.thorough(ctx)
+            from . import selftest
+            selftest.run(ctx)
         return report.finish(ctx)
     except AnalysisError as e:
         if ctx is None:
